@@ -382,6 +382,24 @@ Proof.
     apply reachN_0. split; [reflexivity | eapply getr_alive; eauto].
 Qed.
 
+(* the value a router computes from an advertisement of a level-r state is witnessed at level r+1 *)
+Lemma LB_core : forall r Sp i j rj d, at_g Sp -> LB r Sp -> getr Sp j = Some rj ->
+  newc i (rrib rj) d < r + 1 -> newc i (rrib rj) d < INF ->
+  exists c, newc i (rrib rj) d = c + 1 /\ reachN g c j d.
+Proof.
+  intros r Sp i j rj d Hatp HLB Gj Hr Hlt.
+  pose proof Hatp as [[_ Hall] _]. destruct (getr_some _ _ _ Gj) as [Ij Sj].
+  destruct (Hall rj Ij) as (Rj & _).
+  destruct (newc_lt i (rrib rj) d Rj Hlt) as (a & Ha & Halt & Hcase).
+  exists a. split; [exact Ha|].
+  assert (Har : a < r) by lia.
+  destruct Hcase as [[Hb _] | [Hb _]].
+  - pose proof (b1_attained (rrib rj) d Rj) as Hatt. rewrite <- Hb in Hatt. specialize (Hatt Halt).
+    rewrite <- Hatt. apply (witness_rv r Sp j rj d _ Hatp HLB Gj); rewrite Hatt; assumption.
+  - pose proof (b2_attained (rrib rj) d Rj) as Hatt. rewrite <- Hb in Hatt. destruct (Hatt Halt) as [Hatt' _].
+    rewrite <- Hatt'. apply (witness_rv r Sp j rj d _ Hatp HLB Gj); rewrite Hatt'; assumption.
+Qed.
+
 Lemma LB_up : forall r S Sp i j rj, at_g S -> at_g Sp -> LB r Sp -> getr Sp j = Some rj -> E i j ->
   LBp (r + 1) (fst (step S (Deliver i j (advert (rrib rj))))) i j.
 Proof.
@@ -392,14 +410,7 @@ Proof.
   pose proof Hatp as [[_ Hall] _]. destruct (getr_some _ _ _ Gj) as [Ij Sj].
   destruct (Hall rj Ij) as (Rj & _).
   rewrite Hrv, N.eqb_refl in *. rewrite lastc_advert in * by (destruct Rj as [Hn _]; exact Hn).
-  destruct (newc_lt i (rrib rj) d Rj Hlt) as (a & Ha & Halt & Hcase).
-  exists a. split; [exact Ha|].
-  assert (Har : a < r) by lia.
-  destruct Hcase as [[Hb _] | [Hb _]].
-  - pose proof (b1_attained (rrib rj) d Rj) as Hatt. rewrite <- Hb in Hatt. specialize (Hatt Halt).
-    rewrite <- Hatt. apply (witness_rv r Sp j rj d _ Hatp HLB Gj); rewrite Hatt; assumption.
-  - pose proof (b2_attained (rrib rj) d Rj) as Hatt. rewrite <- Hb in Hatt. destruct (Hatt Halt) as [Hatt' _].
-    rewrite <- Hatt'. apply (witness_rv r Sp j rj d _ Hatp HLB Gj); rewrite Hatt'; assumption.
+  apply (LB_core r Sp i j rj d Hatp HLB Gj Hr Hlt).
 Qed.
 
 Lemma LB_keep : forall r S i j adv i' j', at_g S -> E i' j' -> LBp r S i' j' -> (i' <> i \/ j' <> j) ->
@@ -500,6 +511,28 @@ Proof.
   destruct Hd as [_ Hmin]. specialize (Hmin _ Hr). lia.
 Qed.
 
+(* the value computed from an advertisement of a state at level k is exact at level k+1 *)
+Lemma UB_core : forall k Sp i j rj d m, at_g Sp -> NU Sp -> UB k Sp -> getr Sp j = Some rj -> i <> j ->
+  m < k + 1 -> isdist g j d m -> isdist g i d (m + 1) -> m + 1 < INF ->
+  newc i (rrib rj) d = m + 1.
+Proof.
+  intros k Sp i j rj d m Hatp HNU HUB Gj Hij Hmk Hdj Hdi Hm.
+  pose proof Hatp as [[_ Hallr] _].
+  destruct (getr_some _ _ _ Gj) as [Ij Sj]. destruct (Hallr rj Ij) as (Rj & Hhj & Zj & Nj).
+  assert (Hb : b1 (rrib rj) d = m) by (apply (UB_b1 k Sp j rj d m (conj Hatp HNU) HUB Gj Hdj); lia).
+  apply newc_eq; [exact Rj | exact Hb | | exact Hm].
+  (* poison reverse does not strike: j's best next hop towards d is not i *)
+  intro Hn1.
+  assert (Hatt : rv (rrib rj) d i = m).
+  { rewrite <- Hn1, <- Hb. apply b1_attained; [exact Rj | lia]. }
+  assert (Hlt : rv (rrib rj) d i < INF) by lia.
+  destruct (Hhj d i Hlt) as [Hin | [Hself _]].
+  - assert (Hji : E j i) by exact (getr_E Sp j rj i Hatp Gj Hin).
+    destruct (HNU j i Hji rj d Gj Hlt Hlt) as (c & Hc & Hreach).
+    destruct Hdi as [_ Hmin]. specialize (Hmin _ Hreach). lia.
+  - apply Hij. rewrite Hself. exact Sj.
+Qed.
+
 Lemma P2_up : forall k S Sp i j rj, at_g S -> at_g Sp -> allP P2 k Sp -> getr Sp j = Some rj -> E i j ->
   P2 (k + 1) (fst (step S (Deliver i j (advert (rrib rj))))) i j.
 Proof.
@@ -511,23 +544,13 @@ Proof.
       as [[_ Hn] | (_ & ri & ri' & Gi & Hj & Si' & Nb' & Hrv & Hget & Hat')]; [contradiction|].
     intros rx d m Gx Hmk Hdj Hdi Hm. rewrite Hget, N.eqb_refl in Gx. inversion Gx; subst rx; clear Gx.
     pose proof Hatp as [[_ Hallr] _].
-    destruct (getr_some _ _ _ Gj) as [Ij Sj]. destruct (Hallr rj Ij) as (Rj & Hhj & Zj & Nj).
+    destruct (getr_some _ _ _ Gj) as [Ij Sj]. destruct (Hallr rj Ij) as (Rj & _).
     pose proof Hat as [[_ Hallc] _].
     destruct (getr_some _ _ _ Gi) as [Ii Si]. destruct (Hallc ri Ii) as (Ri & Hhi & Zi & Ni).
     rewrite Hrv, N.eqb_refl. rewrite lastc_advert by (destruct Rj as [Hn _]; exact Hn).
-    assert (Hb : b1 (rrib rj) d = m) by (apply (UB_b1 k Sp j rj d m (conj Hatp HNU) HUB Gj Hdj); lia).
-    apply newc_eq; [exact Rj | exact Hb | | exact Hm].
-    (* poison reverse does not strike: j's best next hop towards d is not i *)
-    intro Hn1.
-    assert (Hatt : rv (rrib rj) d i = m).
-    { rewrite <- Hn1, <- Hb. apply b1_attained; [exact Rj | lia]. }
-    assert (Hlt : rv (rrib rj) d i < INF) by lia.
-    destruct (Hhj d i Hlt) as [Hin | [Hself _]].
-    + assert (Hji : E j i) by exact (getr_E Sp j rj i Hatp Gj Hin).
-      destruct (HNU j i Hji rj d Gj Hlt Hlt) as (c & Hc & Hreach).
-      destruct Hdi as [_ Hmin]. specialize (Hmin _ Hreach). lia.
-    + (* i = j is impossible: j is a neighbour of i and no router is its own neighbour *)
-      apply Ni. rewrite Si. rewrite Hself, Sj. exact Hj.
+    apply (UB_core k Sp i j rj d m Hatp HNU HUB Gj); try assumption.
+    (* no router is its own neighbour *)
+    intros ->. apply Ni. rewrite Si. exact Hj.
 Qed.
 
 Lemma UB_keep : forall k S i j adv i' j', at_g S -> E i' j' -> UBp k S i' j' -> (i' <> i \/ j' <> j) ->
@@ -647,6 +670,65 @@ Proof.
   rewrite run_app.
   apply (converges_from_NU Hs k (N.to_nat k) (run S e1) e2 Hat1); [|exact Hk | lia | exact H2].
   apply (LB_NU (N.of_nat (N.to_nat INF))); [lia | exact HLB].
+Qed.
+
+(* ------------------------------------------------------------------------------------------ *)
+(* every fixed point is the converged state                                                   *)
+(* ------------------------------------------------------------------------------------------ *)
+(* quiescence: every router's stored costs through each neighbour are exactly what that neighbour's current
+   advertisement yields (processing it again changes nothing) *)
+Definition fixed_point (S : net) : Prop :=
+  forall i j ri rj d, getr S i = Some ri -> getr S j = Some rj -> In j (nbrs ri) ->
+    rv (rrib ri) d j = newc i (rrib rj) d.
+
+Lemma E_alive_r : settled g = true -> forall S i j ri, at_g S -> getr S i = Some ri -> In j (nbrs ri) ->
+  exists rj, getr S j = Some rj.
+Proof.
+  intros Hs S i j ri Hat Gi Hj.
+  assert (He : E i j) by exact (getr_E S i ri j Hat Gi Hj).
+  assert (Haj : alive g j = true).
+  { apply (settled_alive g i j Hs); [eapply getr_alive; eauto | exact He]. }
+  destruct Hat as [_ Hg]. rewrite <- Hg in Haj. apply topo_alive in Haj. exact Haj.
+Qed.
+
+Lemma fp_LB : settled g = true -> forall S r, at_g S -> fixed_point S -> LB r S -> LB (r + 1) S.
+Proof.
+  intros Hs S r Hat Hfp HLB i j He ri d Gi Hr Hlt.
+  destruct (E_getr S i j Hat He) as (ri' & Gi' & Hj). rewrite Gi in Gi'. inversion Gi'; subst ri'.
+  destruct (E_alive_r Hs S i j ri Hat Gi Hj) as [rj Gj].
+  rewrite (Hfp i j ri rj d Gi Gj Hj) in *.
+  apply (LB_core r S i j rj d Hat HLB Gj Hr Hlt).
+Qed.
+
+Lemma fp_NU : settled g = true -> forall S, at_g S -> fixed_point S -> NU S.
+Proof.
+  intros Hs S Hat Hfp.
+  assert (H : forall n : nat, LB (N.of_nat n) S).
+  { induction n as [|n IH]; [apply LB_zero|].
+    replace (N.of_nat (Datatypes.S n)) with (N.of_nat n + 1) by lia. apply fp_LB; assumption. }
+  apply (LB_NU (N.of_nat (N.to_nat INF))); [lia | apply H].
+Qed.
+
+Lemma fp_UB : settled g = true -> forall S k, at_g S -> fixed_point S -> NU S -> UB k S -> UB (k + 1) S.
+Proof.
+  intros Hs S k Hat Hfp HNU HUB i j He ri d m Gi Hmk Hdj Hdi Hm.
+  destruct (E_getr S i j Hat He) as (ri' & Gi' & Hj). rewrite Gi in Gi'. inversion Gi'; subst ri'.
+  destruct (E_alive_r Hs S i j ri Hat Gi Hj) as [rj Gj].
+  rewrite (Hfp i j ri rj d Gi Gj Hj).
+  apply (UB_core k S i j rj d m Hat HNU HUB Gj); try assumption.
+  pose proof Hat as [[_ Hall] _]. destruct (getr_some _ _ _ Gi) as [Ii Si]. destruct (Hall ri Ii) as (_ & _ & _ & Ni).
+  intros ->. apply Ni. rewrite Si. exact Hj.
+Qed.
+
+Theorem fixed_point_conv : settled g = true -> forall S k, at_g S -> fixed_point S -> dist_bound k -> conv_at S.
+Proof.
+  intros Hs S k Hat Hfp Hk.
+  pose proof (fp_NU Hs S Hat Hfp) as HNU.
+  assert (H : forall n : nat, UB (N.of_nat n) S).
+  { induction n as [|n IH]; [apply UB_zero|].
+    replace (N.of_nat (Datatypes.S n)) with (N.of_nat n + 1) by lia. apply fp_UB; assumption. }
+  apply (converged_state (N.of_nat (N.to_nat k)) S (conj Hat HNU) (H (N.to_nat k))).
+  intros i d m Hd Hm. specialize (Hk i d m Hd Hm). lia.
 Qed.
 
 End Fixed.
